@@ -79,7 +79,9 @@ func runAttDet(c *AttCase, runs int, rec *pbt.Rec) *pbt.Failure {
 			}
 		}
 		sub := &pbt.Rec{}
+		sim.DefaultSpec = r % 4
 		runAttCaseObs("C06", obs)(c, sub)
+		sim.DefaultSpec = 0
 		if r == 0 {
 			first = log
 			rec.NonTrivial = sub.NonTrivial || len(c.Vals) >= 3
@@ -106,7 +108,7 @@ func TestC06(t *testing.T) {
 	const runs = 4
 	(&pbt.Check{
 		ID:   "C06",
-		Rule: "whole-bridge histories (3 of 4 cases; the rest are claim histories with late joiners and conflicting claims, run 6 times) with several tokens per pool, oracle price and holder claims of every validator, cross-chain transfers and executions; each history is executed in 4 fresh instances in one process (Go re-randomises every map range) and state hash + ABCI event digest are compared after every Begin/EndBlock; non-trivial = a history in which a map with >=2 keys was ranged (>=2 tokens unbatched at an even height, or an oracle epoch processed with >=2 claimers); distinct = distinct case JSON",
+		Rule: "whole-bridge histories (3 of 4 cases; the rest are claim histories with late joiners and conflicting claims, run 6 times) with several tokens per pool, oracle price and holder claims of every validator, cross-chain transfers and executions; each history is executed in 4 fresh instances in one process (Go re-randomises every map range; instance 1 additionally dry-runs every transaction and a token-list proposal on contexts it throws away, instance 2 rebuilds all keepers over the same stores every third block, instance 3 does both) and state hash + ABCI event digest are compared after every Begin/EndBlock; non-trivial = a history in which a map with >=2 keys was ranged (>=2 tokens unbatched at an even height, or an oracle epoch processed with >=2 claimers); distinct = distinct case JSON",
 		Gen: func(t *rapid.T) interface{} {
 			if rapid.IntRange(0, 3).Draw(t, "family") == 0 {
 				return &DetCase{A: genAttCase(t).(*AttCase)}
@@ -124,7 +126,11 @@ func TestC06(t *testing.T) {
 			var firstKey string
 			for r := 0; r < runs; r++ {
 				rc := &recorder{}
+				// run 0 only executes the blocks; run 1 also executes things on contexts it throws away, run 2 is restarted every
+				// third block, run 3 does both (sim.Hub.Spec)
+				sim.DefaultSpec = r % 4
 				it := bridge.NewInterp(c, "C06", rc)
+				sim.DefaultSpec = 0
 				it.NoHash = true
 				it.Run()
 				if r == 0 {
